@@ -17,14 +17,15 @@ From OV Require Import Proofs.RoundMatmul.
 (* ======================================================================================================
    C03 (dense matrix algebra), norm laws -- package matnorm.  Append to Props/C03.v.
    Proofs: Proofs/MatNormLawsBase.v (real sums, maxima), MatNormLawsP.v (norm_p with 0^p = 0), MatNormLawsAx.v (norm
-   axioms, transpose), MatNormLawsMink.v (Minkowski), MatNormLawsMul.v (products), MatNormLawsRound.v (standard model).
+   axioms, transpose), MatNormLawsMink.v (Minkowski), MatNormLawsMul.v (products), MatNormLawsRound.v (standard model),
+   MatNormLawsFloat.v (the binary64 instance through Flocq).
    All over the real instance [MatNormsR.AR]/[MatNormsR.SAR] of the model functions (the rounding block: the
    standard-model instance against it).  Axioms: the four standard real-number/classical ones, as for [norms_real].
    ====================================================================================================== *)
 From Coq Require Import Reals Lra Lia.
 From OV Require Import Base.RoundModel Proofs.RoundFlx.
 From OV Require Proofs.RoundNorm2 Proofs.MatNormLawsBase Proofs.MatNormLawsP Proofs.MatNormLawsAx Proofs.MatNormLawsMink
-  Proofs.MatNormLawsMul Proofs.MatNormLawsRound.
+  Proofs.MatNormLawsMul Proofs.MatNormLawsRound Proofs.MatNormLawsFloat.
 
 (* ---------- norm_p with a power function that is right at zero (package matnorm) ----------
    [MatNormLawsP.pw x p] = if x = 0 then 0 else Rpower x p : the real power with 0^p = 0, which is what libm's pow returns
@@ -369,3 +370,92 @@ Example mnorm_frob_rounding_nonvacuous :
   Proofs.Matrix.wf (mkM (A:=ARm xadd xsub xmul xdiv) [1%R; (-2)%R; 0%R; 4%R; 0%R; (-5)%R] 2 3) /\ (INR (rows (mkM (A:=ARm xadd xsub xmul xdiv) [1%R; (-2)%R; 0%R; 4%R; 0%R; (-5)%R] 2 3) * cols (mkM (A:=ARm xadd xsub xmul xdiv) [1%R; (-2)%R; 0%R; 4%R; 0%R; (-5)%R] 2 3) + 1) * ux < 1)%R.
 Proof. split; [exact ux_range|]. split; [exact xadd_ok|]. split; [exact xmul_ok|]. split; [exact xadd_0_mul|].
   split; [intros x _; apply rndx_rel|]. split; [reflexivity|]. cbn [rows cols Nat.mul Nat.add INR]. pose proof ux_small. lra. Qed.
+
+(* ---------- the norms at the PRIMITIVE-FLOAT instance itself (package matnorm) ----------
+   [AF]/[SAF] = IEEE binary64, the instance the correspondence check runs bit for bit against the Rust code; through Flocq's
+   specification of Coq's primitive floats.  [MatNormLawsFloat.fm m] is the real matrix of the values of the entries, the norms
+   on the right are the same model functions at the exact reals.  No underflow condition for norm_1 / norm_inf / norm_max:
+   float additions never lose relative accuracy to underflow, |.| and the comparisons are exact. *)
+Theorem mnorm_1_float : (forall (m : matrix AF), Proofs.Matrix.wf m ->
+  (forall j, (j < cols m)%nat -> ffinite (colsum (SS:=SAF) m j)) -> INR (rows m) * u64 < 1 ->
+  exists Rf N, mnorm_1 (S:=SAF) m = Ok Rf /\ ffinite Rf /\ mnorm_1 (S:=MatNormsR.SAR) (MatNormLawsFloat.fm m) = Ok N /\
+    Rabs (FR Rf - N) <= g64 (rows m) * N)%R.
+Proof. exact MatNormLawsFloat.mnorm_1_float_lemma. Qed.
+Check mnorm_1_float : (forall (m : matrix AF), Proofs.Matrix.wf m ->
+  (forall j, (j < cols m)%nat -> ffinite (colsum (SS:=SAF) m j)) -> INR (rows m) * u64 < 1 ->
+  exists Rf N, mnorm_1 (S:=SAF) m = Ok Rf /\ ffinite Rf /\ mnorm_1 (S:=MatNormsR.SAR) (MatNormLawsFloat.fm m) = Ok N /\
+    Rabs (FR Rf - N) <= g64 (rows m) * N)%R.
+Print Assumptions mnorm_1_float.
+Example mnorm_1_float_nonvacuous :
+  Proofs.Matrix.wf (@mkM AF [1.5%float; (-2)%float; 3%float; 4%float] 2 2) /\
+  (forall j, (j < cols (@mkM AF [1.5%float; (-2)%float; 3%float; 4%float] 2 2))%nat -> ffinite (colsum (SS:=SAF) (@mkM AF [1.5%float; (-2)%float; 3%float; 4%float] 2 2) j)) /\
+  (INR (rows (@mkM AF [1.5%float; (-2)%float; 3%float; 4%float] 2 2)) * u64 < 1)%R.
+Proof. split; [reflexivity|]. split.
+  - intros [|[|j]] Hj; cbn in Hj; try lia; apply ffinite_SF; reflexivity.
+  - cbn [rows INR]. pose proof u64_small. lra. Qed.
+
+Theorem mnorm_inf_float : (forall (m : matrix AF), Proofs.Matrix.wf m ->
+  (forall i, (i < rows m)%nat -> ffinite (rowsum (SS:=SAF) m i)) -> INR (cols m) * u64 < 1 ->
+  exists Rf N, mnorm_inf (S:=SAF) m = Ok Rf /\ ffinite Rf /\ mnorm_inf (S:=MatNormsR.SAR) (MatNormLawsFloat.fm m) = Ok N /\
+    Rabs (FR Rf - N) <= g64 (cols m) * N)%R.
+Proof. exact MatNormLawsFloat.mnorm_inf_float_lemma. Qed.
+Check mnorm_inf_float : (forall (m : matrix AF), Proofs.Matrix.wf m ->
+  (forall i, (i < rows m)%nat -> ffinite (rowsum (SS:=SAF) m i)) -> INR (cols m) * u64 < 1 ->
+  exists Rf N, mnorm_inf (S:=SAF) m = Ok Rf /\ ffinite Rf /\ mnorm_inf (S:=MatNormsR.SAR) (MatNormLawsFloat.fm m) = Ok N /\
+    Rabs (FR Rf - N) <= g64 (cols m) * N)%R.
+Print Assumptions mnorm_inf_float.
+Example mnorm_inf_float_nonvacuous :
+  Proofs.Matrix.wf (@mkM AF [1.5%float; (-2)%float; 3%float; 4%float] 2 2) /\
+  (forall i, (i < rows (@mkM AF [1.5%float; (-2)%float; 3%float; 4%float] 2 2))%nat -> ffinite (rowsum (SS:=SAF) (@mkM AF [1.5%float; (-2)%float; 3%float; 4%float] 2 2) i)) /\
+  (INR (cols (@mkM AF [1.5%float; (-2)%float; 3%float; 4%float] 2 2)) * u64 < 1)%R.
+Proof. split; [reflexivity|]. split.
+  - intros [|[|i]] Hi; cbn in Hi; try lia; apply ffinite_SF; reflexivity.
+  - cbn [cols INR]. pose proof u64_small. lra. Qed.
+
+(* norm_max of finite entries is exact *)
+Theorem mnorm_max_float : (forall (m : matrix AF), Proofs.Matrix.wf m ->
+  (forall i j, (i < rows m)%nat -> (j < cols m)%nat -> ffinite (entry (A:=AF) m i j)) ->
+  exists Rf, mnorm_max (S:=SAF) m = Ok Rf /\ ffinite Rf /\ mnorm_max (S:=MatNormsR.SAR) (MatNormLawsFloat.fm m) = Ok (FR Rf))%R.
+Proof. exact MatNormLawsFloat.mnorm_max_float_lemma. Qed.
+Check mnorm_max_float : (forall (m : matrix AF), Proofs.Matrix.wf m ->
+  (forall i j, (i < rows m)%nat -> (j < cols m)%nat -> ffinite (entry (A:=AF) m i j)) ->
+  exists Rf, mnorm_max (S:=SAF) m = Ok Rf /\ ffinite Rf /\ mnorm_max (S:=MatNormsR.SAR) (MatNormLawsFloat.fm m) = Ok (FR Rf))%R.
+Print Assumptions mnorm_max_float.
+Example mnorm_max_float_nonvacuous :
+  Proofs.Matrix.wf (@mkM AF [1.5%float; (-2)%float; 3%float; 4%float] 2 2) /\
+  (forall i j, (i < rows (@mkM AF [1.5%float; (-2)%float; 3%float; 4%float] 2 2))%nat -> (j < cols (@mkM AF [1.5%float; (-2)%float; 3%float; 4%float] 2 2))%nat -> ffinite (entry (A:=AF) (@mkM AF [1.5%float; (-2)%float; 3%float; 4%float] 2 2) i j)).
+Proof. split; [reflexivity|].
+  intros [|[|i]] [|[|j]] Hi Hj; cbn in Hi, Hj; try lia; apply ffinite_SF; reflexivity. Qed.
+
+(* norm_frob: finite result, finite entries, no square underflows (each is 0 or >= 2^-1022) -> relative error gam (rows*cols+1);
+   the square root of a float never underflows and is correctly rounded (Flocq's Bsqrt_correct) *)
+Theorem mnorm_frob_float : (forall (m : matrix AF) (Rf : PrimFloat.float), Proofs.Matrix.wf m ->
+  mnorm_frob (S:=SAF) m = Ok Rf -> ffinite Rf ->
+  (forall k, (k < length (buf m))%nat -> ffinite (nth k (buf m) 0%float)) ->
+  (forall k, (k < length (buf m))%nat -> no_underflow (FR (nth k (buf m) 0%float) * FR (nth k (buf m) 0%float))) ->
+  INR (rows m * cols m + 1) * u64 < 1 ->
+  exists th N, Rabs th <= g64 (rows m * cols m + 1) /\
+    mnorm_frob (S:=MatNormsR.SAR) (MatNormLawsFloat.fm m) = Ok N /\ FR Rf = N * (1 + th))%R.
+Proof. exact MatNormLawsFloat.mnorm_frob_float_lemma. Qed.
+Check mnorm_frob_float : (forall (m : matrix AF) (Rf : PrimFloat.float), Proofs.Matrix.wf m ->
+  mnorm_frob (S:=SAF) m = Ok Rf -> ffinite Rf ->
+  (forall k, (k < length (buf m))%nat -> ffinite (nth k (buf m) 0%float)) ->
+  (forall k, (k < length (buf m))%nat -> no_underflow (FR (nth k (buf m) 0%float) * FR (nth k (buf m) 0%float))) ->
+  INR (rows m * cols m + 1) * u64 < 1 ->
+  exists th N, Rabs th <= g64 (rows m * cols m + 1) /\
+    mnorm_frob (S:=MatNormsR.SAR) (MatNormLawsFloat.fm m) = Ok N /\ FR Rf = N * (1 + th))%R.
+Print Assumptions mnorm_frob_float.
+Example mnorm_frob_float_nonvacuous :
+  let m := (@mkM AF [1.5%float; (-2)%float; 3%float; 4%float] 2 2) in
+  Proofs.Matrix.wf m /\ (exists Rf, mnorm_frob (S:=SAF) m = Ok Rf /\ ffinite Rf) /\
+  (forall k, (k < length (buf m))%nat -> ffinite (nth k (buf m) 0%float)) /\
+  (forall k, (k < length (buf m))%nat -> no_underflow (FR (nth k (buf m) 0%float) * FR (nth k (buf m) 0%float))%R) /\
+  (INR (rows m * cols m + 1) * u64 < 1)%R.
+Proof. cbn zeta. split; [reflexivity|]. split; [eexists; split; [vm_compute; reflexivity|apply ffinite_SF; reflexivity]|].
+  assert (E15 : FR 1.5%float = 1.5%R) by fr_eval. assert (E2 : FR (-2)%float = (-2)%R) by fr_eval.
+  assert (E3 : FR 3%float = 3%R) by fr_eval. assert (E4 : FR 4%float = 4%R) by fr_eval.
+  split; [|split].
+  - intros [|[|[|[|k]]]] Hk; cbn in Hk; try lia; apply ffinite_SF; reflexivity.
+  - intros [|[|[|[|k]]]] Hk; cbn in Hk; try lia; cbn [nth buf]; rewrite ?E15, ?E2, ?E3, ?E4;
+      apply no_underflow_ge1; rewrite Rabs_pos_eq; lra.
+  - cbn [rows cols Nat.mul Nat.add INR]. pose proof u64_small. lra. Qed.
